@@ -505,9 +505,10 @@ func (r *registry) doTokenRequest(req *http.Request) (*wireToken, error) {
 		Transport: r.transport,
 		// The credentials in the request are for the realm that
 		// the registry has named and for nobody else, so don't
-		// follow a redirect that leads to another host.
+		// follow a redirect that leads to another host, or to
+		// the same host by another scheme (from https to http, say).
 		CheckRedirect: func(req *http.Request, via []*http.Request) error {
-			if req.URL.Host != via[0].URL.Host {
+			if req.URL.Host != via[0].URL.Host || req.URL.Scheme != via[0].URL.Scheme {
 				return http.ErrUseLastResponse
 			}
 			if len(via) >= 10 {
